@@ -409,8 +409,9 @@ func Structured(r *world.Rng, o Opts) *Prog {
 	// subroutines: sub i may call subs with larger index only
 	nsub := r.Range(0, o.MaxSubs)
 	subAddrs := make([]uint16, nsub)
+	subBase := uint16(r.Pick(SubBase, SubBase, 0x1800, 0x2800, 0x3800))
 	for i := range subAddrs {
-		subAddrs[i] = SubBase + uint16(i)*SubStride
+		subAddrs[i] = subBase + uint16(i)*SubStride
 	}
 	subSegs := make([]CodeSeg, nsub)
 	for i := nsub - 1; i >= 0; i-- {
